@@ -91,10 +91,13 @@ def post_init(call):
         ctx.violation('radius/' + tag, 'stored radius is not the (minimally enlarged) input radius',
                       {'stored': repr(self.radius), 'reference': (ref.rx, ref.ry), 'lambda': ref.lam})
     # --- centre ---------------------------------------------------------
+    # the centre sits at the end of a lever of length r over a base of length chord
+    rmax = max(ref.rx, ref.ry, abs(end - start))
+    lever = 64 * EPS * (abs(start) + abs(end)) * rmax / abs(end - start)
     if lc == 'fits':
-        ctol = 1e-9 * size / max(math.sqrt(1 - ref.lam), 1e-3)
+        ctol = 1e-9 * rmax / max(math.sqrt(1 - ref.lam), 1e-3) + lever
     elif lc == 'scaled':
-        ctol = 1e-9 * size
+        ctol = 1e-9 * rmax + lever
     else:
         ctol = None
     if ctol is not None and not (abs(self.center - complex(ref.cx, ref.cy)) <= ctol):
@@ -113,7 +116,8 @@ def post_init(call):
     if not (abs(d) <= 360 + 1e-9):
         ctx.violation('delta-range/' + tag, '|delta| exceeds 360', {'delta': d})
     # --- end points and interior points against the reference ----------
-    ptol = 1e-6 * size      # DESIGN 3.3: theta/delta come from acos, sqrt(eps)-conditioned at 0/180 degrees
+    # the centre of a nearly exactly fitting ellipse is sqrt(rounding)-conditioned (DESIGN 3.3)
+    ptol = (1e-6 if lc == 'band' else 1e-9) * size + 256 * EPS * (abs(start) + abs(end) + abs(complex(ref.cx, ref.cy)))
     for t in (0, 1, 0.3, 0.7):
         got = self.point(t)
         want = ref.point(t)
@@ -152,7 +156,7 @@ def post_point(call):
     if not (abs(e - 1) <= 1e-9):
         ctx.violation('off-ellipse/' + lc, 'point(t) is not on the ellipse of the stored centre/radii/rotation',
                       {'t': float(t), 'ellipse_eq': float(e)})
-    ptol = 1e-6 * ref.size
+    ptol = (1e-6 if lc == 'band' else 1e-9) * ref.size + 256 * EPS * (abs(self.start) + abs(self.end) + abs(self.center))
     if 0 <= t <= 1 and not (abs(z - ref.point(float(t))) <= ptol):
         ctx.violation('point-param/' + lc, 'point(t) is not the point at eccentric angle theta1 + t*dtheta of F.6.5',
                       {'t': float(t), 'got': repr(z), 'want': repr(ref.point(float(t))), 'tol': ptol})
@@ -282,9 +286,18 @@ def cases(ctx):
             e = gen.scaled_point(rng, scale)
             spec = ['A', [s.real, s.imag], [rng.uniform(0.01, 3) * scale, rng.uniform(0.01, 3) * scale],
                     rng.uniform(-400, 400), rng.random() < 0.5, rng.random() < 0.5, [e.real, e.imag]]
+        cls = ['random']
+        if rng.random() < 0.15:
+            # very short arcs: chord/radius down to 1e-12 (what Path.cropped produces next to a joint)
+            s = gen.scaled_point(rng, scale)
+            r = scale * rng.uniform(0.5, 50)
+            e = s + r * 10.0 ** rng.uniform(-12, -3) * complex(math.cos(i), math.sin(i))
+            spec = ['A', [s.real, s.imag], [r, r * rng.choice([1.0, 0.5, 3.0])], rng.uniform(-180, 180),
+                    False, rng.random() < 0.5, [e.real, e.imag]]
+            cls = ['random', 'tiny-extent']
         if spec[1] == spec[6]:
             continue
-        yield {'kind': 'arc', 'arc': spec, 'cls': ['random']}
+        yield {'kind': 'arc', 'arc': spec, 'cls': cls}
 
 
 def run_case(ctx, case):
